@@ -102,7 +102,8 @@ def histories(draw):
                     "name": draw(st.sampled_from(ATTR_POOL + ["new1", "new 2"])),
                     "only_leaf": draw(st.booleans()), "seed": draw(st.integers(0, 2**32 - 1))}
             if kind == "gra":
-                step["domain"] = draw(domains())
+                earlier = [s_["domain"] for s_ in steps if s_.get("domain")]
+                step["domain"] = draw(st.sampled_from(earlier)) if earlier and draw(st.booleans()) else draw(domains())
             steps.append(step)
         else:
             op = draw(st.sampled_from(READ_ONLY))
@@ -164,6 +165,7 @@ def check(case):
     out = []
     fms = [build.build(m) for m in case["models"]]
     shared = {name: getattr(ops, name)() for name in READ_ONLY + ["GenerateRandomAttribute"]}
+    domains_seen = {}
     for k, step in enumerate(case["steps"]):
         i = step["model"]
         fm = fms[i]
@@ -225,8 +227,13 @@ def check(case):
                 out.append(("C19.gra.missing-domain-modified-model", f"step {k}"))
             continue
         dom = step["domain"]
-        domain = Domain([Range(build.thaw(lo), build.thaw(hi)) for lo, hi in dom["ranges"]],
-                        [build.thaw(e) for e in dom["elements"]])
+        # one Domain object per distinct domain of the history: a user sets a domain once and executes several
+        # times, so the attributes created earlier hold the very object the next execution draws from
+        dkey = repr(dom)
+        if dkey not in domains_seen:
+            domains_seen[dkey] = Domain([Range(build.thaw(lo), build.thaw(hi)) for lo, hi in dom["ranges"]],
+                                        [build.thaw(e) for e in dom["elements"]])
+        domain = domains_seen[dkey]
         op.set_domain(domain)
         state = random.getstate()
         random.seed(step["seed"])
